@@ -441,8 +441,9 @@ def blinded_predicate(c):
     a_in = carried[ii] if ii >= 0 else None      # what arrives at the introduction node
     tl_in = expiry[ii] if ii >= 0 else None
     if amt > p["max"]:
-        add(F1_SIG, "amount %d entering the blinded path exceeds its htlc_maximum_msat %d%s"
-            % (amt, p["max"], " (introduction-node-only path)" if single else ""))
+        add(F1_SIG + ("-intro-only" if single else ""),
+            "amount %d entering the blinded path exceeds its htlc_maximum_msat %d%s"
+            % (amt, p["max"], " (introduction-node-only path: no edge carries the limit)" if single else ""))
     if amt < p["min"]:
         add("C19 blinded:amount-below-htlc-minimum" + ("-intro-only" if single else ""),
             "amount %d entering the blinded path is below its htlc_minimum_msat %d" % (amt, p["min"]))
@@ -450,12 +451,18 @@ def blinded_predicate(c):
         agg = p["base"] + (amt * p["rate"]) // 1000000
         got = a_in - amt
         need_node = max(0, agg + in_fee(es[ii], amt + agg))
+        inb = in_fee(es[ii], amt + agg)
         if got < need_node:
             add("fee", "introduction node keeps %d, aggregate+inbound policy demands %d" % (got, need_node))
-        elif got < agg:
+        elif got < agg and inb < 0 and got == need_node:
+            # attributable to ONE mechanism: the shortfall is exactly the
+            # (floored) inbound discount of the introduction node
             add("C19 blinded:inbound-discount-cuts-aggregate-fee",
-                "blinded path is left %d, its aggregated fee is %d (inbound discount of the "
-                "introduction node's incoming channel subtracted from the whole path's fee)" % (got, agg))
+                "blinded path is left %d, its aggregated fee is %d: the inbound discount %d of the "
+                "introduction node's incoming channel %d was netted against the whole path's fee"
+                % (got, agg, inb, es[ii]["chan"]))
+        elif got < agg:
+            add("fee", "blinded path is left %d, its aggregated fee is %d" % (got, agg))
         if tl_in - last["tl"] < p["delta"]:
             add("delta", "blinded path gets expiry gap %d, its cltv_expiry_delta is %d"
                 % (tl_in - last["tl"], p["delta"]))
@@ -475,9 +482,39 @@ def blinded_predicate(c):
             add("restr", "node %d in front of the search target is not the required last hop %d"
                 % (want, c["lasthop"]))
     if sum(c["sizes"]) > MAX_PAYLOAD or not c["sphinxok"] or c["onionsize"] > MAX_PAYLOAD:
-        add("C19 blinded:onion-payload-exceeds-1300" + ("-session" if c.get("session") else ""),
-            "onion payload %d bytes does not fit %d (findPath's estimate of the final hop: %d, real: %d)"
-            % (sum(c["sizes"]), MAX_PAYLOAD, c["lastsize"], c["sizes"][-1]))
+        # attributable to the final-hop estimate iff (a) what findPath itself
+        # added up did fit, (b) every other hop is no bigger than estimated and
+        # (c) the final hop is short by exactly the records lastHopPayloadSize
+        # leaves out: total_amount_msat (+ destination custom records), plus
+        # the growth of the payload-length varint they may cause
+        est = c["lastsize"]
+        bs = {(f, t): z for f, t, z in (c.get("bsizes") or [])}
+        others_ok = True
+        for i, e in enumerate(c["path"]):
+            if i == 0:
+                continue
+            pe = bs.get((e["from"], e["to"]), c["sizes"][i - 1])
+            est += pe
+            if i - 1 < n - 1 and c["sizes"][i - 1] > pe:
+                others_ok = False
+        tot = c["total"]
+        missing = 2 + max(1, (tot.bit_length() + 7) // 8)
+        if c.get("customlen", -1) >= 0:
+            cl = c["customlen"]
+            missing += 5 + (1 if cl < 253 else 3) + cl
+        short = c["sizes"][-1] - c["lastsize"]
+        if (c["sphinxok"] and not c.get("session") and est <= MAX_PAYLOAD and others_ok
+                and missing <= short <= missing + 2):
+            add("C19 blinded:onion-payload-exceeds-1300",
+                "onion payload %d bytes does not fit %d: findPath's estimate of the final hop is %d, "
+                "real %d (total_amount_msat%s not counted by lastHopPayloadSize), its own total %d fits"
+                % (sum(c["sizes"]), MAX_PAYLOAD, c["lastsize"], c["sizes"][-1],
+                   " + custom records" if c.get("customlen", -1) >= 0 else "", est))
+        else:
+            add("payload", "onion payload %d bytes does not fit %d (findPath's total estimate %d, final "
+                "hop estimated %d real %d%s)" % (sum(c["sizes"]), MAX_PAYLOAD, est, c["lastsize"],
+                                                 c["sizes"][-1], ", session-style restrictions"
+                                                 if c.get("session") else ""))
     if c["totalamt"] != c["recv"] + sum(c["hopfees"]) or c["totfees"] != sum(c["hopfees"]):
         add("totals", "TotalAmount %d != receiver %d + hop fees %s" % (c["totalamt"], c["recv"], c["hopfees"]))
     # time locks: public gaps + the blinded gap add up
